@@ -27,7 +27,7 @@ def sigMarked (f : Func Val) : Option (List (Val Ã— Bool) Ã— List (Val Ã— Val) Ã
 def inter (a b : List Val) : List Val := a.filter (fun x => b.contains x)
 def diff (a b : List Val) : List Val := a.filter (fun x => !b.contains x)
 
-/-- the eight checks of `validate`, in the order of the code (each `false` is a `raise TypeError`) -/
+/-- the nine checks of `validate`, in the order of the code (each `false` is a `raise TypeError`) -/
 structure VChecks where
   pVarkw : Bool      -- partial built for **kwds, but **kwds not used in func.func
   pVarargs : Bool    -- partial built for *args, but *args not used in func.func
@@ -37,9 +37,10 @@ structure VChecks where
   badKwds : Bool     -- keyword given for a parameter the partial fixed positionally
   dup : Bool         -- a parameter given both positionally and by keyword
   required : Bool    -- a required parameter is missing
+  boundSelf : Bool   -- the instance parameter of a bound method given again by keyword
 
 def VChecks.all (v : VChecks) : Bool :=
-  v.pVarkw && v.pVarargs && v.varargs && v.varkw && v.badArgs && v.badKwds && v.dup && v.required
+  v.pVarkw && v.pVarargs && v.varargs && v.varkw && v.badArgs && v.badKwds && v.dup && v.required && v.boundSelf
 
 def vchecks (f : Func Val) (c : PCall Val) (explicitM : List (Val Ã— Bool)) (defaults : List (Val Ã— Val))
     (badKwds : List Val) : VChecks :=
@@ -57,7 +58,10 @@ def vchecks (f : Func Val) (c : PCall Val) (explicitM : List (Val Ã— Bool)) (def
     badArgs := (inter badArgs (keys argsKwds)).isEmpty,
     badKwds := (inter badKwds (keys c.kwds)).isEmpty,
     dup := (inter (keys argsKwds) (keys c.kwds)).isEmpty,
-    required := (diff named (keys defaults)).all (fun n => (keys c.kwds).contains n || (keys argsKwds).contains n) }
+    required := (diff named (keys defaults)).all (fun n => (keys c.kwds).contains n || (keys argsKwds).contains n),
+    boundSelf := !(f.bound && f.nposonly == 0 && (match (names f.pos).head? with
+      | some n => (keys c.kwds).contains n || (keys f.pKwds).contains n
+      | none => false)) }
 
 /-- `validate(func, *args, **kwds)` does not raise -/
 def validate (f : Func Val) (c : PCall Val) : Bool :=
